@@ -160,9 +160,6 @@ func c13Gen(g *hx.Gen) {
 		ops []string
 	}
 	var wls []wl
-	c13Fourth(g)
-	c13Recovery(g)
-	c13Abandon(g)
 	distinct := func(ty string, n, pulls int, clear bool, ops []string) []string {
 		// distinct keys: which file is exhausted first (and so the residue) is then determined
 		base := g.Intn(50)
@@ -209,6 +206,11 @@ func c13Gen(g *hx.Gen) {
 			}
 		}
 	}
+	// after the systematic single-fault enumeration, so that a widened (focused) run, in which the
+	// generators below produce their thorough-tier volume, cannot starve it of the case budget
+	c13Fourth(g)
+	c13Recovery(g)
+	c13Abandon(g)
 	// (2) (fault, ordering) pairs in concurrent mode: random walks, random single fault
 	n := g.Scale(250, 20000)
 	for k := 0; k < n && !g.Done(); k++ {
